@@ -698,6 +698,11 @@ pub(crate) fn parse_strings(
                     }
                     deduped.push(value)
                 }
+                // an empty literal contributes nothing (no empty Constant piece)
+                Expr::Constant(ast::ExprConstant {
+                    value: Constant::Str(value),
+                    ..
+                }) if value.is_empty() => {}
                 Expr::Constant(ast::ExprConstant {
                     value: Constant::Str(value),
                     ..
